@@ -29,6 +29,9 @@
 (* particular ends in another namespace than the stored one's).  The       *)
 (* repository after a rejected CreateInstance must give the same traversal *)
 (* results as before it (ImplEqualsDecl over the unchanged store).         *)
+(* ModifyInstance of the (non-key) reference properties of an AL instance:  *)
+(* ModifyEnds; ModEnds = "asis" is the code of the pinned tree, "fixed"    *)
+(* the repaired design (all stored copies follow, missing copies are made).*)
 (* Class hierarchy as state: xpar[ns] = superclass of ABX in ns ("" = no   *)
 (* such class); AddClass changes it between traversals.                    *)
 (***************************************************************************)
@@ -42,6 +45,8 @@ CONSTANTS NodeU,       \* sequence of node records [ns, cls, sv, kid]
           AcU, RcU, RlU,  \* filter tokens quantified over ("" = not given)
           NoShadow, ModSharedPath,
           NoPreCheck,  \* regression switch, see Reject
+          ModEnds,     \* ModifyInstance of reference properties: "off" (not
+                       \* generated) / "asis" / "fixed", see ModifyEnds
           XParU,       \* superclasses ABX may be given by AddClass ({} = the
                        \* class is never added)
           GenDepth     \* > 0: record the calls (behaviour emission)
@@ -142,6 +147,56 @@ Reject(c, ends, ns, g0) ==
              ELSE hist
   /\ UNCHANGED xpar
 
+(* ModifyInstance(ends := e2) of the AL instance g (references are not keys: *)
+(* the path stays), addressed to its copy in namespace ns.  A reference    *)
+(* that is set cannot be set to NULL (refused by the mock) and an absent   *)
+(* one stays absent (the mock cannot set it: KeyError, a ModifyInstance    *)
+(* matter).  Case distinction ModCase (the binding covers all):    *)
+(*   "same"    the namespaces involved after the change all hold a copy,   *)
+(*             and every namespace that holds a copy is still involved     *)
+(*   "shrink"  a namespace that holds a copy is no longer involved (a      *)
+(*             cross-namespace association becomes a single-namespace one) *)
+(*   "grow"    a namespace becomes involved that holds no copy             *)
+(* "asis" (ModifyInstance + modify_multi_namespace_instance):              *)
+(*    others = namespaces of the NEW ends other than ns;                   *)
+(*    others = {}: only the copy in ns is replaced;                        *)
+(*    else every namespace in others + ns must hold a copy (else           *)
+(*    CIM_ERR_NOT_FOUND, nothing changed) and exactly these copies are     *)
+(*    replaced by the modified instance of ns.                             *)
+(*    -> "shrink" leaves a STALE copy (old ends) in the other namespace,   *)
+(*       "grow" is refused.                                                *)
+(* "fixed": every stored copy of g is replaced, namespaces of the new ends *)
+(*    without a copy get one.                                              *)
+CurOf(g, ns) == CHOOSE a \in store : a.g = g /\ a.ns = ns
+ModCase(g, ns, e2) ==
+  LET old == {a.ns : a \in {b \in store : b.g = g}}
+      new == {ns} \cup EndNs(e2) IN
+  IF new \ old # {} THEN "grow" ELSE IF old \ new # {} THEN "shrink" ELSE "same"
+ModifyEnds(g, ns, e2) ==
+  LET cur == CurOf(g, ns)
+      has(h) == \E a \in store : a.g = g /\ a.ns = h
+      others == EndNs(e2) \ {ns}
+      put(a) == [a EXCEPT !.ends = e2, !.w = cur.w, !.pns = a.ns]
+      refused == ModEnds = "asis" /\ \E h \in others : ~has(h)
+      hit == IF ModEnds = "fixed" THEN {a \in store : a.g = g}
+             ELSE {a \in store : a.g = g /\ a.ns \in others \cup {ns}}
+      made == IF ModEnds = "fixed"
+              THEN {[cur EXCEPT !.ends = e2, !.ns = h, !.pns = h] :
+                       h \in {o \in others : ~has(o)}}
+              ELSE {} IN
+  /\ ModEnds # "off" /\ g[1] = "AL"
+  /\ \E a \in store : a.g = g /\ a.ns = ns
+  /\ e2 # cur.ends
+  /\ \A p \in DOMAIN e2 : (cur.ends[p] = 0) <=> (e2[p] = 0)
+  /\ store' = IF refused THEN store
+              ELSE (store \ hit) \cup {put(a) : a \in hit} \cup made
+  /\ hist' = IF GenDepth > 0
+             THEN Append(hist, [op |-> "modifyends", cls |-> "AL", ends |-> e2,
+                                ns |-> ns, of |-> g[2],
+                                case |-> ModCase(g, ns, e2)])
+             ELSE hist
+  /\ UNCHANGED xpar
+
 (* CreateClass / add_cimobjects of ABX as subclass of p in namespace ns    *)
 AddClass(ns, p) ==
   /\ xpar[ns] = ""
@@ -173,6 +228,8 @@ Next == \/ \E c \in ClsU, ns \in CreateNs : \E ends \in EndTuples(c) :
         \/ \E a \in store, ns \in CreateNs : \E ends \in EndTuples(a.cls) :
               Reject(a.cls, ends, ns, a.g)
         \/ \E ns \in CreateNs, p \in XParU : AddClass(ns, p)
+        \/ \E a \in store : \E e2 \in EndTuples(a.cls) :
+              ModifyEnds(a.g, a.ns, e2)
 Spec == Init /\ [][Next]_vars
 
 (*----------------------- Impl = declarative ------------------------------*)
